@@ -1,14 +1,25 @@
 (* C05 — ROS 2 round-robin and busy-window analyses (RTSS'21) are safe.  Statements only.
-   PARTIAL.  The full statement — for every self-consistent vector of assumed bounds no instance of any callback
-   exceeds its bound in any execution of the executor model — requires mechanising the polling-window invariants
-   of the RTSS'21 appendix and is NOT proved here (its semantic soundness rests on the paper and is exercised by
-   the executor simulation oracle of this check).  Proved: the two analyses compute exactly what their defining
-   inequalities say (every offset, least fixed points, exact inverse of the supply-bound function), the rr analysis
-   is monotone in workload, assumed bounds and supply, and an Ok result is independent of the limit. *)
+   PROVED for the round-robin-aware analysis (rr, Theorem 2) against the OPERATIONAL model of the single-threaded
+   executor (Spec/Executor.v: timers first in priority order, polled callbacks from a ready set that is refreshed
+   only when it is empty, non-preemptive, processor time from a reservation): for every self-consistent vector of
+   assumed bounds (e_rr applied to every callback as a singleton subchain reproduces the vector; any limit, either
+   build profile), every legal budget placement, every arrival function whose per-callback release sequences are
+   admissible, every execution time in [1, WCET] and every executor priority order that is arbitrary for timers and
+   unknown-priority callbacks and strictly agrees with the known priorities, every completed instance has a response
+   time of at most its bound (C05_rr_sound).  Known priorities must be pairwise distinct ("all priority ORDERS"; they
+   stand for the registration order): for two callbacks sharing a known priority the bound is exceeded
+   (C05_rr_equal_known_priorities_refuted, replayed on the crate: rr returns 5, the executor needs 7).
+   PROVED likewise for the busy-window-aware analysis (bw, Theorem 3): C05_bw_sound, for arrival models whose step
+   enumeration is exact (steps_exact_class: excludes the C11 classes plateau-ended Curve and ArrivalCurvePrefix); for bw
+   the priority order among polled callbacks is irrelevant (C05_bw_sound_any_priority_order).
+   For both analyses the development also proves that they compute exactly what their defining inequalities say (every offset, least fixed points, exact
+   inverse of the supply-bound function); rr is monotone in workload, assumed bounds and supply. *)
 From Coq Require Import List NArith Lia Bool.
 From RTA.Model Require Import Base FixedPoint Ros2.
 From RTA.Spec Require Import Exhaustive ExhaustiveRos.
-From RTA.Proofs Require Import SupplyProofs StepsProofs ExhFP ExhRos MonoProofs.
+From RTA.Model Require Import Supply Eval.
+From RTA.Spec Require Import Reservation Executor.
+From RTA.Proofs Require Import SupplyProofs StepsProofs ExhFP ExhRos MonoProofs EsSound RrSound BwSound.
 
 Theorem C05_partial_rr_is_its_defining_inequalities : forall sbf st, sbf_ok sbf -> exact_inverse sbf st ->
   forall dbg wl sc limit (bound : N -> N),
@@ -30,3 +41,32 @@ Theorem C05_partial_rr_monotone : forall sbf st sbf' st',
   forall dbg wl wl' sc limit, Forall2 cb_le wl wl' -> (forall cb, In cb wl -> cb_mono cb) -> (forall cb, In cb wl' -> cb_mono cb) ->
   rle (rr_subchain dbg sbf st wl sc limit) (rr_subchain dbg sbf' st' wl' sc limit).
 Proof. exact rr_subchain_mono. Qed.
+
+(* ---- rr: semantic soundness against the operational executor (definitions wl_ok, cbs_match, arrivals_ok, costs_ok, wl_R
+        in Proofs/RrSound.v; run / finished in Spec/Executor.v) ---- *)
+Theorem C05_rr_sound : forall dbg sb (wl : wlT) limit cbs cost_of arr sigma,
+  wf_sb sb -> supply_admits sb sigma ->
+  wl_ok wl -> cbs_match wl cbs -> arrivals_ok wl arr -> costs_ok wl cost_of ->
+  (forall i, (i < length wl)%nat -> e_rr dbg sb wl [i] limit = ROk (wl_R wl i)) ->
+  forall H c a f, In (c, a, f) (finished (run cbs cost_of H arr sigma)) -> (f - a <= N.to_nat (wl_R wl c))%nat.
+Proof. exact rr_sound. Qed.
+(* the premises are satisfiable (bounds 11 and 8, an instance with response time 7) *)
+Definition C05_rr_sound_nonvacuous := rr_sound_nonvacuous.
+(* two distinct callbacks with the SAME known priority: every other premise holds, the bound 5 is exceeded (7) *)
+Definition C05_rr_equal_known_priorities_refuted := rr_unsound_witness.
+
+(* ---- bw: semantic soundness against the operational executor ---- *)
+Theorem C05_bw_sound : forall dbg sb (wl : wlT) limit cbs cost_of arr sigma,
+  wf_sb sb -> supply_admits sb sigma ->
+  wl_ok wl -> wl_steps_ok wl -> cbs_match wl cbs -> arrivals_ok wl arr -> costs_ok wl cost_of ->
+  (forall i, (i < length wl)%nat -> e_bw dbg sb wl [i] limit = ROk (wl_R wl i)) ->
+  forall H c a f, In (c, a, f) (finished (run cbs cost_of H arr sigma)) -> (f - a <= N.to_nat (wl_R wl c))%nat.
+Proof. exact bw_sound. Qed.
+(* the executor's priority order among polled callbacks is irrelevant for bw (ties, disagreement with the known priorities) *)
+Theorem C05_bw_sound_any_priority_order : forall dbg sb (wl : wlT) limit cbs cost_of arr sigma,
+  wf_sb sb -> supply_admits sb sigma ->
+  wl_ok wl -> wl_steps_ok wl -> cbs_timers_match wl cbs -> arrivals_ok wl arr -> costs_ok wl cost_of ->
+  (forall i, (i < length wl)%nat -> e_bw dbg sb wl [i] limit = ROk (wl_R wl i)) ->
+  forall H c a f, In (c, a, f) (finished (run cbs cost_of H arr sigma)) -> (f - a <= N.to_nat (wl_R wl c))%nat.
+Proof. exact bw_sound_any_order. Qed.
+Definition C05_bw_sound_nonvacuous := bw_sound_nonvacuous.
